@@ -1063,7 +1063,13 @@ func concFamily(ctx *Ctx) error {
 			v.Case = run.idx
 		}
 		run.monitorHits++
-		res.Violate(*run.shrinkConc(v))
+		v = run.shrinkConc(v)
+		if cc, ok := v.Input.(CCase); ok && cc.Kind == "schedule" && v.Model == "" {
+			if ml, err := m.Ask1(cc.Sys.modelLine(cc.Sched)); err == nil {
+				v.Model = ml // what the model does under the same schedule
+			}
+		}
+		res.Violate(*v)
 	}
 
 	// corpus first
@@ -1126,8 +1132,7 @@ func concFamily(ctx *Ctx) error {
 	res.Note("controlled scheduler: %d complete schedules over %d systems", run.schedules, gen+len(hand))
 
 	// collect the stress child (or run the stress in-process without the race detector)
-	finishConcStress(ctx, stress)
-	return nil
+	return finishConcStress(ctx, stress)
 }
 
 func concReplay(ctx *Ctx, run *concRun) error {
